@@ -137,7 +137,7 @@ def _parse_params(c, params):
 def contract(key, module=None, qual=None, params=None, returns=None, requires=(), ensures=(),
              raises=None, modifies=(), loops=None, yields=False, pure=False, props=(),
              kind='repo', model=None, defaults=None, free_requires=(), notes='',
-             locals=None, verify=True, lemmas=(), reads=(), checks=(), scope_timeouts=(), is_property=False, ghost_entry=(), ghost_after=None):
+             locals=None, verify=True, lemmas=(), reads=(), checks=(), scope_timeouts=(), is_property=False, ghost_entry=(), ghost_after=None, rely=(), call_requires=None):
     c = Contract(key)
     c.kind = kind
     c.module = module
@@ -165,7 +165,9 @@ def contract(key, module=None, qual=None, params=None, returns=None, requires=()
     c.checks = list(checks)
     c.is_property = is_property
     c.ghost_entry = list(ghost_entry)          # ghost statements executed at function entry
-    c.ghost_after = dict(ghost_after or {})    # source text of a statement -> ghost statements run after it      # proved at every normal exit, not exported to callers
+    c.ghost_after = dict(ghost_after or {})
+    c.rely = list(rely)                        # two-state facts assumed across every yield point (G2)
+    c.call_requires = dict(call_requires or {})  # callee key -> extra obligations at calls to it    # source text of a statement -> ghost statements run after it      # proved at every normal exit, not exported to callers
     c.locals = {k: T.parse_type(v) for k, v in (locals or {}).items()}
     CONTRACTS[key] = c
     for p in props:
@@ -243,3 +245,12 @@ def bounded(props, script, what):
         BOUNDED.setdefault(p, [])
         if (script, what) not in BOUNDED[p]:
             BOUNDED[p].append((script, what))
+
+
+MONITORS = {}      # class -> dict(inv=[...], shared=[...])
+
+
+def monitor(cls, inv=(), shared=()):
+    """G2: object invariant that must hold whenever control can leave the greenlet (every yield point) and
+    the part of the state other greenlets may change while it is away."""
+    MONITORS[cls] = dict(inv=list(inv), shared=list(shared))
